@@ -126,3 +126,45 @@ void harness_value_types(void)
 	CHECK(e && e->value && e->value->valueint == v, "C04.accepted_change_stores_the_value");
 	WITNESS_END();
 }
+
+/* ================================================================== values of every JSON type travel unchanged: the owner changes its state to a value of
+ * type VTYPE (subscriber B sees a change event carrying that type, the state stays a state), and A sets the state
+ * to a value of that type (the routed request carries that type) */
+static struct peer Bs;
+void harness_value_types_travel(void)
+{
+	__CPROVER_assume(element_hashtable_create() == 0);
+	mkpeer(&O, true); mkpeer(&A, true); mkpeer(&Bs, true);
+	scn_build_begin();
+#if VTYPE == 0
+	cJSON *nv = cJSON_CreateNull(), *sv = cJSON_CreateNull(); int want = cJSON_NULL;
+#elif VTYPE == 1
+	cJSON *nv = cJSON_CreateFalse(), *sv = cJSON_CreateFalse(); int want = cJSON_False;
+#elif VTYPE == 2
+	cJSON *nv = cJSON_CreateString(""), *sv = cJSON_CreateString(""); int want = cJSON_String;
+#elif VTYPE == 3
+	cJSON *nv = cJSON_CreateArray(), *sv = cJSON_CreateArray(); int want = cJSON_Array;
+#elif VTYPE == 4
+	cJSON *nv = cJSON_CreateObject(), *sv = cJSON_CreateObject(); int want = cJSON_Object;
+#else
+	cJSON *nv = mknumber(0), *sv = mknumber(0); int want = cJSON_Number;
+#endif
+	cJSON *add = mkreq("add", 1, path_params("s", 5));
+	cJSON *fetch = mkreq("fetch", 2, fetch_params("f"));
+	cJSON *cp = cJSON_CreateObject(); cJSON_AddItemToObject(cp, "path", cJSON_CreateString("s")); cJSON_AddItemToObject(cp, "value", nv);
+	cJSON *chg = mkreq("change", 3, cp);
+	cJSON *sp = cJSON_CreateObject(); cJSON_AddItemToObject(sp, "path", cJSON_CreateString("s")); cJSON_AddItemToObject(sp, "value", sv);
+	cJSON *set = mkreq("set", 4, sp);
+	scn_build_end();
+	__CPROVER_assume(dispatch(&O, add) == 0 && dispatch(&Bs, fetch) == 0);
+	reset_log();
+	CHECK(dispatch(&O, chg) == 0, "C04.request_keeps_connection");
+	{ struct sent *c = last_of(&O, K_RESPONSE); CHECK(c && c->has_result && !c->is_error, "C04.change_by_the_owner_is_accepted_for_states"); }
+	struct element *e = element_table_get("s");
+	CHECK(e && e->value != 0 && e->value->type == want, "C04.accepted_change_stores_the_value");
+	{ struct sent *ev = last_of(&Bs, K_EVENT); CHECK(count_events(&Bs, 'c', "s") == 1 && ev && ev->has_value && ev->payload_type == want, "C01.change_event_carries_new_value"); }
+	reset_log();
+	CHECK(dispatch(&A, set) == 0, "C04.request_keeps_connection");
+	{ struct sent *rt = last_of(&O, K_ROUTED); CHECK(count_kind(&O, K_ROUTED) == 1 && count_responses(&A) == 0 && rt && rt->has_value && rt->payload_type == want, "C03.routed_request_carries_path_and_value_unchanged"); }
+	WITNESS_END();
+}
